@@ -120,11 +120,9 @@ class _Loc:
 
             df = df.astype(dtypes)
 
-        objectives = self._objectives
-        objectives = objectives[objectives.index.isin(df.columns)].to_numpy()
+        objectives = self._objectives.loc[df.columns].to_numpy()
 
-        weights = self._weights
-        weights = weights[weights.index.isin(df.columns)].to_numpy()
+        weights = self._weights.loc[df.columns].to_numpy()
 
         return DecisionMatrix(df, objectives, weights)
 
@@ -641,13 +639,9 @@ class DecisionMatrix(DiffEqualityMixin):
 
             df = df.astype(dtypes)
 
-        objectives = self.objectives
-        objectives = objectives[objectives.index.isin(df.columns)].to_numpy(
-            copy=True
-        )
+        objectives = self.objectives.loc[df.columns].to_numpy(copy=True)
 
-        weights = self.weights
-        weights = weights[weights.index.isin(df.columns)].to_numpy(copy=True)
+        weights = self.weights.loc[df.columns].to_numpy(copy=True)
 
         return DecisionMatrix(df, objectives, weights)
 
